@@ -9,6 +9,7 @@ differs from every genuine one was accepted" to an explicit primitive-level even
 -/
 import RtcModel.Srtp
 import RtcModel.Lemmas.SrtpSess
+import RtcModel.Lemmas.SrtpTable
 import RtcModel.Lemmas.SrtpToy
 
 namespace RtcModel.Theorems.C05
@@ -377,12 +378,15 @@ theorem reject_preserves_state (S : Suite) (s : Sess) (now : Nat) (h : Hdr) (p :
       simp only [unprotectRtp_err_keeps S c h p body e' hr, replace_lookup_self s.rx h.ssrc c hl]
     | ok a => rw [withRx_some_ok S s now h.ssrc _ hl hr] at he; simp at he
   | none =>
-    cases hn : Ctx.new S h.ssrc s.profile s.rxMk s.rxMs now with
-    | error e' => rw [withRx_none_newerr S s now h.ssrc _ hl hn]
-    | ok c =>
-      cases hr : (c.unprotectRtp S h p body).1 with
-      | error e' => rw [withRx_none_err S s now h.ssrc _ hl hn hr]
-      | ok a => rw [withRx_none_ok S s now h.ssrc _ hl hn hr] at he; simp at he
+    cases hfull : rxFull s.rx now with
+    | true => rw [withRx_none_full S s now h.ssrc _ hl hfull]
+    | false =>
+      cases hn : Ctx.new S h.ssrc s.profile s.rxMk s.rxMs now with
+      | error e' => rw [withRx_none_newerr S s now h.ssrc _ hl hfull hn]
+      | ok c =>
+        cases hr : (c.unprotectRtp S h p body).1 with
+        | error e' => rw [withRx_none_err S s now h.ssrc _ hl hfull hn hr]
+        | ok a => rw [withRx_none_ok S s now h.ssrc _ hl hfull hn hr] at he; simp at he
 
 /-- the whole receive path (`SrtpPacket::parse` then `unprotect_rtp`): any error, state unchanged -/
 theorem reject_preserves_state_receive (S : Suite) (s : Sess) (now : Nat) (raw : Bytes) (e : ParseErr ⊕ Err)
@@ -424,12 +428,15 @@ theorem reject_preserves_state_rtcp (S : Suite) (s : Sess) (now : Nat) (pkt : By
         rw [withRx_some_err S s now _ _ hl hr]
         simp only [unprotectRtcp_err_keeps S c pkt e' hr, replace_lookup_self s.rx _ c hl]
     | none =>
-      cases hn : Ctx.new S (ssrcOfRtcp pkt) s.profile s.rxMk s.rxMs now with
-      | error e' => rw [withRx_none_newerr S s now _ _ hl hn]
-      | ok c =>
-        cases hr : (c.unprotectRtcp S pkt).1 with
-        | error e' => rw [withRx_none_err S s now _ _ hl hn hr]
-        | ok a => rw [withRx_none_ok S s now _ _ hl hn hr] at he; simp at he
+      cases hfull : rxFull s.rx now with
+      | true => rw [withRx_none_full S s now _ _ hl hfull]
+      | false =>
+        cases hn : Ctx.new S (ssrcOfRtcp pkt) s.profile s.rxMk s.rxMs now with
+        | error e' => rw [withRx_none_newerr S s now _ _ hl hfull hn]
+        | ok c =>
+          cases hr : (c.unprotectRtcp S pkt).1 with
+          | error e' => rw [withRx_none_err S s now _ _ hl hfull hn hr]
+          | ok a => rw [withRx_none_ok S s now _ _ hl hfull hn hr] at he; simp at he
 
 /-- the same at the `SrtpContext` API (which is public too): a failed `unprotect` / `unprotect_rtcp`
 leaves the context exactly as it was -/
@@ -491,6 +498,19 @@ theorem rejected_packets_are_invisible (S : Suite) (ops : List Op) (s : Sess) :
     | false =>
       simp only [Bool.false_eq_true, if_false, Bool.not_false, if_true, run]
       rw [← ih (step S s o).2]; rfl
+
+/-! ### The receive table is bounded (the cap of the `fix:` for C07's `retain:…authenticated-ssrc-churn`) -/
+
+/-- whatever arrives — forged or authentic, any SSRCs, any rate — a receive table within
+`MAX_RX_CONTEXTS` stays within it; and by `reject_preserves_state*` the refusal at the cap changes nothing. -/
+theorem rx_table_bounded (S : Suite) (s : Sess) (now : Nat) (hb : s.rx.length ≤ maxRxContexts) :
+    (∀ h p body, (s.unprotectRtp S now h p body).2.rx.length ≤ maxRxContexts) ∧
+    (∀ pkt, (s.unprotectRtcp S now pkt).2.rx.length ≤ maxRxContexts) := by
+  refine ⟨fun h p body => withRx_bounded S s now h.ssrc _ hb, fun pkt => ?_⟩
+  unfold Sess.unprotectRtcp
+  split
+  · exact hb
+  · exact withRx_bounded S s now _ _ hb
 
 /-! ### non-vacuity: an authentication failure on an existing context at ROC 1 -/
 
